@@ -31,7 +31,12 @@ def window_sessions(rnd, n, thorough):
         su = rnd.choice(["Inner", "Flat", "STRING", "Outer"] if S0 == 500 else ["Flat", "STRING", "Outer", "Outer"])
         sbig = {"name": "WS", "udt": su, "dims": [max(2, S0 // {"Inner": 8, "Flat": 40, "STRING": 88, "Outer": 150}[su] + rnd.randint(1, 4))]}
         wb = {"name": "WB", "code": 0xD3, "dims": [S0 // 4 + rnd.randint(3, 12)]}            # BOOL array whose words do not fit one reply
-        sc = logix_rw.session(rnd, i, prefix="win", n_calls=0, big=big + [sbig, wb], policy=pol, n_tags=2)
+        # structure slices whose value bytes land in the last bytes below the connection size (structure replies carry a
+        # 4-byte type field: the estimate that decides "fragment or not" must count it)
+        eu, esz = ("Inner", 8) if S0 == 4000 else ("In12", 12)
+        heavy = S0 == 4000 and i % 8 != 0                      # 499-element structure reads are judged in one session per run only
+        edge = {"name": "WE", "udt": eu, "dims": [4 if heavy else S0 // esz + 3]}
+        sc = logix_rw.session(rnd, i, prefix="win", n_calls=0, big=big + [sbig, wb, edge], policy=pol, n_tags=2)
         calls = [{"api": "open"}]
         for b in big:
             n_el = b["dims"][0]
@@ -44,6 +49,10 @@ def window_sessions(rnd, n, thorough):
                 ob = big[0] if b is not big[0] else big[-1]              # never the same tag: overlapping writes are not generated
                 other = R([(ob["name"], [0])])
                 calls += [S.read_call([rd, other]), S.write_call([wr, dict(other, value=1)]), S.read_call([other, rd])]
+        for ne in sorted({(S0 - 8) // esz, (S0 - 10) // esz, (S0 - 8) // esz + 1}):
+            if 1 <= ne <= edge["dims"][0]:
+                calls.append(S.read_call([R([("WE", [])], count=ne)]))
+        calls.append(S.read_call([R([("WE", [k])]) for k in range(min(edge["dims"][0], 45))]))     # many structure elements in one call
         ws = R([("WS", [])], count=sbig["dims"][0])
         nbits = 32 * wb["dims"][0]
         calls += [S.read_call([R([("WB", [nbits - 64])], count=64), R([("WB", [nbits - 1])])]), S.read_call([R([("WB", [0])], count=64), R([("WB", [nbits - 40])], count=8)])]
@@ -60,6 +69,9 @@ def window_sessions(rnd, n, thorough):
             # one negotiated by the Forward Open that finally succeeded
             sc["target"]["policy"] = "AllRefused"
             calls = [{"api": "open"}, {"api": "_env", "intent": {"policy": pol}}] + calls
+        if i % 7 == 1:
+            # close and open again on the same driver object (same target policy): the second session negotiates like the first
+            calls = calls[:-1] + [{"api": "close"}, {"api": "open"}, S.read_call(mids[:8]), S.read_call([R([(big[0]["name"], [])], count=big[0]["dims"][0])]), {"api": "close"}]
         if i % 7 == 5:
             # the same driver object is used for two sessions: the large connection first, then (the target no longer admits
             # large connections) the small one; nothing sized for the first session may leak into the second
